@@ -98,6 +98,7 @@ def main():
         },
         "engines": [
             {"name": "netsim", "path": "/verif/sim/vsim (built without cfg huginn_net_verif_sched)", "serves_properties": sorted(p for p,c in CHECKS.items() if "netsim" in c["engine"]), "kind_free_text": "own discrete-event packet-path simulator: simulated clock, seeded endpoints/tap/fault pipeline, real analyzers"},
+            {"name": "netsim-plain", "path": "/verif/sim/vsim (as netsim, but the crates compiled as a plain release build: no overflow checks, no debug assertions)", "serves_properties": sorted(p for p,c in CHECKS.items() if "netsim" in c["engine"] and p != "C11"), "kind_free_text": "the same simulator against the build profile deployments run; code inside debug_assert! does not exist there"},
             {"name": "poolsim", "path": "/verif/sim/vsim (built with cfg huginn_net_verif_sched)", "serves_properties": sorted(p for p,c in CHECKS.items() if "poolsim" in c["engine"]), "kind_free_text": "the real WorkerPools under shuttle's seeded scheduler with a model channel"},
         ],
         "checks": checks,
